@@ -207,8 +207,16 @@ func (c *Ctx) Roles() *Roles {
 		r.Accept = callers[0].Parent()
 	}
 	if r.Start != nil {
-		// the subscriber callback of the connection: a closure or a bound method stored into the onpub field
-		for _, b := range r.Start.Blocks {
+		// the subscriber callback of the connection: a closure or a bound method stored into the onpub field, by
+		// start itself or by a method of the service that start calls
+		var startBlocks []*ssa.BasicBlock
+		startBlocks = append(startBlocks, r.Start.Blocks...)
+		for _, call := range ir.Calls(r.Start) {
+			if h := call.Common().StaticCallee(); h != nil && h != r.Start && h.Blocks != nil && recvNamed(h) == "service" && h.Pkg == r.Start.Pkg {
+				startBlocks = append(startBlocks, h.Blocks...)
+			}
+		}
+		for _, b := range startBlocks {
 			for _, in := range b.Instrs {
 				st, ok := in.(*ssa.Store)
 				if !ok {
